@@ -6,12 +6,22 @@ Usage: mutrun.py <mutants.jsonl> [workers]"""
 import json, os, re, subprocess, sys, shutil, threading, queue, concurrent.futures
 ENV = dict(os.environ, GOFLAGS="-mod=mod", GOPROXY="off", GOSUMDB="off", GOTOOLCHAIN="local")
 def sh(cmd, cwd=None, timeout=900):
+    # own session: a mutant can make the tests signal their whole process group
+    import signal
+    p = subprocess.Popen(cmd, shell=True, cwd=cwd, env=ENV, stdout=subprocess.PIPE, stderr=subprocess.STDOUT, start_new_session=True)
     try:
-        p = subprocess.run(cmd, shell=True, cwd=cwd, env=ENV, stdout=subprocess.PIPE, stderr=subprocess.STDOUT, timeout=timeout)
-        return p.returncode, p.stdout.decode(errors="replace")
+        out, _ = p.communicate(timeout=timeout)
+        return p.returncode, out.decode(errors="replace")
     except subprocess.TimeoutExpired:
+        try:
+            os.killpg(p.pid, signal.SIGKILL)
+        except Exception:
+            pass
+        p.communicate()
         return 124, "timeout"
 muts = [json.loads(l) for l in open(sys.argv[1])]
+ORDER = {"drop-call": 0, "drop-defer": 0, "continue-to-break": 0, "swallow-error": 1, "drop-field-assign": 1, "negate-if": 2, "binop": 3}
+muts.sort(key=lambda m: (ORDER.get(m["kind"], 9), m["id"]))
 NW = int(sys.argv[2]) if len(sys.argv) > 2 else 6
 done = set()
 OUT = "/tmp/mutres.jsonl"
@@ -50,15 +60,11 @@ def one(m):
         res["status"] = "survived-tests"
         vdir = wt + "-verif"; os.makedirs(vdir, exist_ok=True); shutil.copy("/verif/known_findings.jsonl", vdir)
         fired = {}
-        def chk(pid):
-            rc, o = sh(f"/verif/bin/pcverif check {pid} --repo {wt} --verif {vdir}")
-            rules = sorted(set(re.findall(r"violated (\S+)", o)))
-            brk = [l[:160] for l in o.splitlines() if "CHECK-BROKEN" in l]
-            return pid, rules, brk
-        with concurrent.futures.ThreadPoolExecutor(max_workers=4) as ex:
-            for pid, rules, brk in ex.map(chk, props):
-                if rules: fired[pid] = rules
-                if brk: fired.setdefault(pid, []).append("BROKEN:" + brk[0])
+        rc, o = sh(f"/verif/bin/pcverif checkall --repo {wt} --verif {vdir}")
+        for l in o.splitlines():
+            m2 = re.match(r"(C\d\d) (.*)", l)
+            if m2:
+                fired.setdefault(m2.group(1), []).append(m2.group(2)[:160])
         res["fired"] = fired
         shutil.rmtree(vdir, ignore_errors=True)
     except Exception as e:
